@@ -809,7 +809,26 @@ pub fn set_plan(max_recs: usize) -> BoxedStrategy<SetPlan> {
 }
 
 pub fn fixed_plan(max_recs: usize) -> BoxedStrategy<PktPlan> {
+    // field-aware records: every field of the V5/V7 layout independently zero, all ones,
+    // one, small or random - so that conjunctions such as "protocol 1 and destination port
+    // 0" or "next hop 0.0.0.0 and a non-zero output interface" occur regularly
+    const WIDTHS: [usize; 21] = [4, 4, 4, 2, 2, 4, 4, 4, 4, 2, 2, 1, 1, 1, 1, 2, 2, 1, 1, 2, 4];
+    let aware = vec((any::<u8>(), any::<u32>()), 21).prop_map(|fs| {
+        let mut r = Vec::with_capacity(52);
+        for ((sel, val), w) in fs.iter().zip(WIDTHS.iter()) {
+            let v: u32 = match sel % 8 {
+                0..=2 => 0,
+                3 => u32::MAX,
+                4 => 1,
+                5 => val % 256,
+                _ => *val,
+            };
+            r.extend_from_slice(&v.to_be_bytes()[4 - w..]);
+        }
+        r
+    });
     let rec = prop_oneof![
+        3 => aware,
         3 => vec(any::<u8>(), 52),
         1 => any::<u8>().prop_map(|b| (0..52u8).map(|i| b.wrapping_add(i.wrapping_mul(3).wrapping_add(1))).collect::<Vec<u8>>()),
         1 => prop_oneof![Just(vec![0u8; 52]), Just(vec![0xffu8; 52]), Just(vec![0x80u8; 52])],
@@ -851,8 +870,35 @@ pub struct Mix {
     pub ipfix: u32,
 }
 
+/// packets that are nothing but their header: an IPFIX message without sets (16 bytes), a V9
+/// packet without flowsets (20 bytes), a V5/V7 packet without records (24 bytes)
+pub fn minimal_plan(mix: Mix) -> BoxedStrategy<PktPlan> {
+    let mut alts: Vec<(u32, BoxedStrategy<PktPlan>)> = vec![];
+    if mix.fixed > 0 {
+        alts.push((mix.fixed, (any::<bool>(), vec(any::<u8>(), 20)).prop_map(|(v7, hdr)| PktPlan::Fixed { v7, hdr, recs: vec![] }).boxed()));
+    }
+    if mix.v9 > 0 {
+        alts.push((mix.v9, [hdr_word(), hdr_word(), hdr_word(), hdr_word()].prop_map(|hdr| PktPlan::V9 { hdr, sets: vec![] }).boxed()));
+    }
+    if mix.ipfix > 0 {
+        alts.push((mix.ipfix, [hdr_word(), hdr_word(), hdr_word()].prop_map(|hdr| PktPlan::Ipfix { hdr, sets: vec![] }).boxed()));
+    }
+    proptest::strategy::Union::new_weighted(alts).boxed()
+}
+
+/// mostly header-only packets with a few ordinary ones in between
+pub fn pkt_plan_minimal_heavy(mix: Mix, max_sets: usize, max_recs: usize) -> BoxedStrategy<PktPlan> {
+    prop_oneof![
+        6 => minimal_plan(mix),
+        1 => pkt_plan(mix, max_sets, max_recs),
+    ]
+    .boxed()
+}
+
 pub fn pkt_plan(mix: Mix, max_sets: usize, max_recs: usize) -> BoxedStrategy<PktPlan> {
     let mut alts: Vec<(u32, BoxedStrategy<PktPlan>)> = vec![];
+    // one packet in sixteen is header-only
+    alts.push(((mix.fixed + mix.v9 + mix.ipfix).div_ceil(15).max(1), minimal_plan(mix)));
     if mix.fixed > 0 {
         alts.push((mix.fixed, fixed_plan(3)));
     }
